@@ -51,6 +51,10 @@ def check_c01(run, tol_inf=1e-9, tol_none=1e-5, tol_nonstoich=1e-9):
             seen.add(kind)
             viol.append({'sig': kind, 'msg': 'step %d (t=%g): %s' % (n, d.time[n], msg)})
     N = min(d.n, len(mon.rows) - 1)
+    # no-diffusion mode: solute of particles that the end-of-step clean-up removed stays booked in the history integral
+    # (cumrem, in composition units), tracked here from the distributions before / after the clean-up of every step
+    nodiff = c['precdiff'] != 'inf'
+    cumrem = np.zeros((P, E))
     for n in range(1, N + 1):
         mb = mon.rows[n].get('mb')
         if mb is None:
@@ -60,13 +64,16 @@ def check_c01(run, tol_inf=1e-9, tol_none=1e-5, tol_nonstoich=1e-9):
         fv = np.zeros(P)
         F = np.zeros((P, E))
         Fown = np.zeros((P, E))
+        m3x = np.zeros(P)
         for p in range(P):
             x, r = mb['x'][p], mb['size'][p]
             vr, vf = _volratio(c, names, p), _vf(c, names, p)
             m3 = float(np.sum(x * r ** 3))
+            m3x[p] = m3
             fv[p] = min(vr * vf * m3, 1.0)
             if float(np.sum(x)) < m.constraints.minNucleateDensity:
                 fv[p] = 0.0
+                cumrem[p] = 0.0          # the model restarts the history integral of an empty phase
                 continue
             xb = _xb_true(run, p)
             xbeta = mb['xbeta'][p]
@@ -90,12 +97,25 @@ def check_c01(run, tol_inf=1e-9, tol_none=1e-5, tol_nonstoich=1e-9):
         if np.sum(fv) >= 1:
             stats['full'] += 1
             continue
-        tol = tol_inf if c['precdiff'] == 'inf' else tol_none
+        stoich = all(_xb_true(run, p) is not None for p in range(P))
+        # with a stoichiometric precipitate the no-diffusion identity is exact once the booked-but-removed solute is accounted for;
+        # otherwise (precipitate composition varying along the history) the tolerance of the plan applies
+        tol = tol_inf if (c['precdiff'] == 'inf' or stoich) else tol_none
+        booked = F + (cumrem if (nodiff and stoich) else 0.0)
+        if nodiff and stoich:
+            for e in range(E):
+                lost = float(np.sum(cumrem[:, e])) / x0[e]
+                stats['cleanup_loss'] = max(stats.get('cleanup_loss', 0.0), lost)
+                if lost > 1e-9:
+                    bad('C01/no-diffusion-cleanup-loss/%s' % c['system'], n,
+                        'element %d: solute worth %.3g of the alloy content is booked in precipitates that the end-of-step clean-up has removed '
+                        '(classes below the stability limit / minimum radius / holding < 1 particle, e.g. the first class after a re-mesh): '
+                        'the matrix never gets it back in the no-diffusion mode' % (e, lost))
         for e in range(E):
-            if comp[e] == minc and (x0[e] - np.sum(F[:, e])) / (1 - np.sum(fv)) < 0:
+            if comp[e] == minc and (x0[e] - np.sum(booked[:, e])) / (1 - np.sum(fv)) < 0:
                 stats['clamped'] += 1      # documented clamp of a negative matrix composition
                 continue
-            total = (1 - np.sum(fv)) * comp[e] + np.sum(F[:, e])
+            total = (1 - np.sum(fv)) * comp[e] + np.sum(booked[:, e])
             err = abs(total - x0[e]) / x0[e]
             stats['max_rel_err'] = max(stats['max_rel_err'], float(err))
             if not (err <= tol):
@@ -108,6 +128,16 @@ def check_c01(run, tol_inf=1e-9, tol_none=1e-5, tol_nonstoich=1e-9):
                     ref = Fown[p, e]
                     if abs(d.fconc[n, p, e] - ref) > 1e-9 * max(abs(ref), 1e-300) + 1e-300:
                         bad('C01/fconc-row/%s' % c['system'], n, 'recorded fconc %r vs sum over distribution %r' % (d.fconc[n, p, e], ref))
+        # what the clean-up of this step removed (re-meshing conserves the third moment)
+        post = mon.rows[n].get('post')
+        if nodiff and post is not None:
+            for p in range(P):
+                xb = _xb_true(run, p)
+                if xb is None or fv[p] == 0.0:
+                    continue
+                pb = post['bounds'][p]
+                pm3 = float(np.sum(post['psd'][p] * (0.5 * (pb[:-1] + pb[1:])) ** 3))
+                cumrem[p] += _volratio(c, names, p) * _vf(c, names, p) * max(m3x[p] - pm3, 0.0) * xb
     return viol, stats
 
 
